@@ -42,9 +42,12 @@ CLAIMED = {
                  "(everything written as 0) only for all-zero data (or all non-positive data for unsigned output); a negative factor only for all-negative "
                  "data written to an unsigned type; (b) composition of the real find_scale_factor and the real per-element statement of convert_range "
                  "(nothing replaced, loop-free): no conversion in the element statement overflows - 'never overflows the chosen type' - and negatives "
-                 "written to an unsigned type become 0; (c) stir::round(float) is within half a unit for |x| < 2^23. Not decided: the read-back accuracy "
+                 "written to an unsigned type become 0; (c) stir::round(float) is within half a unit for |x| < 2^23. (d) exam information, reader side: the radionuclide block of InterfileHeader::post_processing (statement kernel; Radionuclide "
+                 "constructor = its member-initialiser list under contract, data base by assumed contract, strings as ids) gives, for a name the data base "
+                 "does not know, a nuclide whose half life / branching ratio / name are the header's radionuclide_half_life[0] / "
+                 "radionuclide_branching_ratio[0] / name, and the data base's entry otherwise. Not decided: the read-back accuracy "
                  "'within half a quantisation step' (needs the IEEE error bound of the float division: solver time-out, argued in DESIGN.md), voxel "
-                 "positions, headers, exam information, byte order, truncated files, dynamic/parametric containers."),
+                 "positions, header key parsing / writing and all other exam information, byte order, truncated files, dynamic/parametric containers."),
         "note": ("trusted: cbmc 6.11.0 MiniSat with its IEEE-754 float model and its floor() model; std::max_element/min_element deliver the extreme values; "
                  "element type float, scale type float"),
     },
@@ -152,8 +155,12 @@ CLAIMED = {
                  "index maps of make_fan_data_remove_gaps_help and set_fan_data_add_gaps_help (statement kernels, per block geometry): a pair is used "
                  "iff all four crystals are physical, new index = x - (x / C) * V; lemma: the renumbering of physical crystals is a bijection onto "
                  "[0, blocks*(C-V)) preserving block and position in block - both functions use the same map, so removing and re-adding gaps is "
-                 "lossless. Not decided: apply/un-apply of efficiencies / geometric / block factors (float), fixed point and KL descent of the ML "
-                 "iterations, the loops around the maps, the FanProjData constructor (index ranges assumed from reading it)."),
+                 "lossless; (e) ML update of the geometric and block factors: the element statement of the four iterate_geo_norm / iterate_block_norm "
+                 "functions (statement kernels, float): the new factor is the quotient measured/model whenever measured < 10^4 * model and never anything "
+                 "but that quotient or 0; lemma: for data generated from the model (measured = model*f, 1e-3 <= f <= 1e3) the update is the quotient - the "
+                 "generating factors are a fixed point up to the rounding of one product and one quotient (that rounding bound itself: IEEE, not proved). "
+                 "Not decided: apply/un-apply of efficiencies / geometric / block factors (float), iterate_efficiencies, the sums around the element "
+                 "update, KL descent of the ML iterations, the loops around the maps, the FanProjData constructor (index ranges assumed from reading it)."),
         "note": ("trusted: cbmc 6.11.0 + kissat; FanProjData index ranges read from the constructor (assumed contract of the readers); bin <-> detector "
                  "pair maps are C01"),
     },
